@@ -27,7 +27,7 @@ ANCHORS = ["goose/builder.py:EngineBuilder.build", "goose/builder.py:EngineBuild
            "goose/kernel_sequence.py:KernelSequence.init_states"]
 ASSUMPTIONS = ["jax.random.split yields distinct keys (trusted primitive)"]
 WORKERS = 16
-TIMEOUT = {"quick": 1200, "thorough": 3600}
+TIMEOUT = {"quick": 1800, "thorough": 10800}
 
 SHAPES = {"a": (), "b": (2,), "c": (3,)}
 
@@ -361,22 +361,22 @@ def gen_cfg(rng, nuts_ok=True):
 def gen_cases(tier, seed):
     q = tier == "quick"
     cases = []
-    for i in range(14 if q else 200):
+    for i in range(14 if q else 100):
         rng = rng_for(seed, "c10-repro", i)
         cases.append({"kind": "repro", "idx": i, "cfg": gen_cfg(rng), "engine_seed": int(rng.integers(0, 2 ** 30)), "cost": 8})
-    for i in range(40 if q else 500):
+    for i in range(40 if q else 400):
         rng = rng_for(seed, "c10-keys", i)
         c = gen_probe_case(rng, seed, i)
         c["kind"] = "keys"
         c["cost"] = 2
         cases.append(c)
-    for i in range(10 if q else 120):
+    for i in range(10 if q else 80):
         rng = rng_for(seed, "c10-iso", i)
         cfg = gen_cfg(rng, nuts_ok=(i % 4 == 0))
         cfg["chains"] = int(rng.integers(2, 5))
         cases.append({"kind": "isolation", "idx": i, "cfg": cfg, "engine_seed": int(rng.integers(0, 2 ** 30)),
                       "perturb_chain": int(rng.integers(cfg["chains"])), "delta": float(rng.choice([0.5, -1.0, 3.0])), "cost": 10})
-    for i in range(12 if q else 150):
+    for i in range(12 if q else 100):
         rng = rng_for(seed, "c10-jit", i)
         cfg = gen_cfg(rng, nuts_ok=False)
         cfg["chains"] = int(rng.integers(2, 5))
